@@ -338,7 +338,11 @@ impl Tree {
         assert!(free <= TREE_FRAMES, "{free}");
 
         // Check if transition is allowed by policy
-        if free == TREE_FRAMES && policy(self.class(), default, free) != Policy::Invalid {
+        // Reserved trees keep the class of the local reservation that owns them
+        if free == TREE_FRAMES
+            && !self.reserved()
+            && policy(self.class(), default, free) != Policy::Invalid
+        {
             self.set_class(default);
         }
         self.with_free(free)
